@@ -203,6 +203,8 @@ pub enum Op
     /// mode, system, bundle, token id (0 = none)
     Reg(String, u8, Vec<Trig>, u32),
     Once(u8, Vec<Trig>, u32),
+    /// `ReactCommands::on` / `on_persistent` / `on_revokable`: mode, slot system, bundle, token id (0 = none)
+    On(String, u8, Vec<Trig>, u32),
     Revoke(u32),
     Probe,
     /// world reactor ops: reactor index, bundle
@@ -256,6 +258,7 @@ impl Op
             "despsys" => Op::DespSys(n8(1)),
             "reg" => Op::Reg(a[1].as_str().unwrap().to_string(), n8(2), bundle_from(&a[3]), n32(4)),
             "once" => Op::Once(n8(1), bundle_from(&a[2]), n32(3)),
+            "on" => Op::On(a[1].as_str().unwrap().to_string(), n8(2), bundle_from(&a[3]), n32(4)),
             "revoke" => Op::Revoke(n32(1)),
             "probe" => Op::Probe,
             "wadd" => Op::WAdd(n8(1), bundle_from(&a[2])),
@@ -301,6 +304,7 @@ impl Op
             Op::DespSys(s) => json!(["despsys", s]),
             Op::Reg(m, s, b, k) => json!(["reg", m, s, bundle_to(b), k]),
             Op::Once(s, b, k) => json!(["once", s, bundle_to(b), k]),
+            Op::On(m, s, b, k) => json!(["on", m, s, bundle_to(b), k]),
             Op::Revoke(k) => json!(["revoke", k]),
             Op::Probe => json!(["probe"]),
             Op::WAdd(w, b) => json!(["wadd", w, bundle_to(b)]),
